@@ -64,7 +64,7 @@ def check_r181(fx, rep):
                 if mutated is None:
                     mutated = T.mutated_locals(hir["value"])
                 sites.append((b, n, ps, mutated))
-    rep.floor("R18.1", len(sites), 4, "constructions of SymbolicValue")
+    rep.floor("R18.1", len(sites), 2, "constructions of SymbolicValue")
     for b, n, ps, mutated in sites:
         rep.fn(b["def"])
         w = F.loc(n["span"])
